@@ -204,14 +204,19 @@ def _worker(args):
     cases = os.path.join(wdir, f"{fam}.{idx}.cases")
     verd = os.path.join(wdir, f"{fam}.{idx}.verdicts")
     t0 = time.time()
+    # last-resort watchdog around the whole harness process (the harness has its own per-case watchdog)
+    limit = 1500 if tier == "quick" else 6000
     with open(cases, "w") as f:
-        if corpus is not None:
-            p = subprocess.run([HBIN, "exec"], stdin=open(corpus), stdout=f, stderr=subprocess.PIPE, env=ENV)
-        else:
-            p = subprocess.run([HBIN, "run", fam, str(seed), str(count), tier, str(idx), str(parts)], stdout=f,
-                               stderr=subprocess.PIPE, env=ENV)
-    hrc = p.returncode
-    herr = p.stderr.decode(errors="replace")[-500:]
+        try:
+            if corpus is not None:
+                p = subprocess.run([HBIN, "exec"], stdin=open(corpus), stdout=f, stderr=subprocess.PIPE, env=ENV, timeout=limit)
+            else:
+                p = subprocess.run([HBIN, "run", fam, str(seed), str(count), tier, str(idx), str(parts)], stdout=f,
+                                   stderr=subprocess.PIPE, env=ENV, timeout=limit)
+            hrc = p.returncode
+            herr = p.stderr.decode(errors="replace")[-500:]
+        except subprocess.TimeoutExpired:
+            hrc, herr = -9, f"harness process exceeded {limit} s and was killed"
     with open(cases) as fin, open(verd, "w") as fout:
         p2 = subprocess.run([DRIVER], stdin=fin, stdout=fout, stderr=subprocess.PIPE, env=ENV)
     return dict(fam=fam, seed=seed, idx=idx, cases=cases, verdicts=verd, hrc=hrc, herr=herr,
